@@ -101,6 +101,42 @@ Example C18_nodict_noslots_still_raises :
   iteritems repaired pslots_obj = (Ok [], pslots_obj).
 Proof. vm_compute. repeat split. Qed.
 
+(* Derived classes.  class S: __slots__ = ("a", "b");  class Se(S): __slots__ = ()  -- no annotations anywhere.
+   The attribute Se.__slots__ is (): a description that takes the slot names from that attribute alone (se_own: the
+   code before serdes._all_slots, fix 84f4e26) satisfies the guard and yields nothing although the instance holds a
+   and b; with the names collected over the MRO (se_mro: what c_slots stands for) every held field is yielded. *)
+Definition se_cls (sl : list string) : clsdesc :=
+  {| c_flavour := FSlots; c_dataclass := false; c_dc_fields := []; c_hints := []; c_sig := ["a"; "b"]; c_slots := Some sl |}.
+Definition se_own : val := VObj (se_cls []) [("a", VStr "ab"); ("b", VInt 1)] None [].
+Definition se_mro : val := VObj (se_cls ["a"; "b"]) [("a", VStr "ab"); ("b", VInt 1)] None [].
+Theorem C18_inherited_slots_reading :
+  guard se_own = true /\ iteritems repaired se_own = (Ok [], se_own) /\
+  guard se_mro = true /\
+  iteritems repaired se_mro = (Ok [tup (VStr "a") (VStr "ab"); tup (VStr "b") (VInt 1)], se_mro) /\
+  itervalues repaired se_mro = (Ok [VStr "ab"; VInt 1], se_mro).
+Proof. vm_compute. repeat split. Qed.
+
+(* non-vacuity for derived shapes: an undecorated subclass of a dataclass(slots=True) (fields in inherited slots, an
+   instance __dict__ with an ad-hoc attribute), a subclass that adds an annotated member to an annotated __slots__ class
+   (hints merged over the MRO, pair-like first field), a subclass without __slots__ of a slots-only class *)
+Definition dcs_sub : val :=
+  VObj {| c_flavour := FDataclass; c_dataclass := true; c_dc_fields := ["a"; "_p"]; c_hints := ["a"; "_p"; "tag"];
+          c_sig := ["a"; "_p"]; c_slots := Some ["a"; "_p"] |}
+       [("a", VStr "ab"); ("_p", VInt 2)] (Some [("z", VInt 9)]) [("tag", VInt 7)].
+Definition ann_add : val :=
+  VObj {| c_flavour := FAnnotated; c_dataclass := false; c_dc_fields := []; c_hints := ["a"; "b"];
+          c_sig := ["a"; "b"]; c_slots := Some ["a"; "b"] |}
+       [("a", tup (VStr "k") (VInt 1)); ("b", VInt 2)] None [].
+Definition sl_sub_dict : val :=
+  VObj (se_cls ["a"; "b"]) [("a", VStr "ab"); ("b", VInt 1)] (Some [("z", VInt 9)]) [].
+Example C18_guard_inhabited_derived :
+  guard dcs_sub = true /\ spec_items dcs_sub = [tup (VStr "a") (VStr "ab")] /\
+  guard ann_add = true /\ spec_items ann_add = [tup (VStr "a") (tup (VStr "k") (VInt 1)); tup (VStr "b") (VInt 2)] /\
+  guard sl_sub_dict = true /\ spec_values sl_sub_dict = [VStr "ab"; VInt 1] /\
+  guard (VIter IGenerator 0 [VNamed ["a"; "b"] [VStr "ab"; VInt 1]]) = true /\
+  iteritems repaired (VIter IGenerator 0 [dcs_sub]) = (Ok [tup (VInt 0) dcs_sub], VIter IGenerator 1 [dcs_sub]).
+Proof. vm_compute. repeat split. Qed.
+
 Theorem C18_full_pinned_false : ~ C18_full pinned.
 Proof.
   intros H. destruct (H nt_ab eq_refl) as [Hi _]. vm_compute in Hi. discriminate Hi.
@@ -140,4 +176,5 @@ Print Assumptions C18_refuted_namedtuple.
 Print Assumptions C18_refuted_empty_iter.
 Print Assumptions C18_refuted_signature_fields.
 Print Assumptions C18_refuted_private_slots.
+Print Assumptions C18_inherited_slots_reading.
 Print Assumptions C18_full_pinned_false.
